@@ -38,7 +38,11 @@ func (r *readOnlyFile) Stat() (hackpadfs.FileInfo, error) {
 }
 
 func (r *readOnlyFile) Truncate(size int64) error {
-	return r.file.Truncate(size)
+	if err := r.file.closedErr("truncate"); err != nil {
+		return err
+	}
+	// the handle was not opened for writing
+	return &hackpadfs.PathError{Op: "truncate", Path: r.file.path, Err: hackpadfs.ErrInvalid}
 }
 
 func (r *readOnlyFile) ReadDir(n int) ([]hackpadfs.DirEntry, error) {
